@@ -701,7 +701,9 @@ theorem lastDequeue_mem {s s1 : BState} {c : ConnId} {x : BConn} (h : s1 ∈ las
           simp only [List.mem_cons, List.not_mem_nil, or_false] at h
           split at h
           · refine ⟨b, _, hb, ?_, ?_, h⟩ <;> rfl
-          · refine ⟨b, _, hb, ?_, ?_, h⟩ <;> rfl
+          · split at h
+            · refine ⟨b, _, hb, ?_, ?_, h⟩ <;> rfl
+            · refine ⟨b, _, hb, ?_, ?_, h⟩ <;> rfl
         · simp at h
       · right
         split at h
@@ -710,7 +712,9 @@ theorem lastDequeue_mem {s s1 : BState} {c : ConnId} {x : BConn} (h : s1 ∈ las
           obtain ⟨e, _, he⟩ := h
           split at he
           · refine ⟨b, _, hb, ?_, ?_, he.symm⟩ <;> rfl
-          · refine ⟨b, _, hb, ?_, ?_, he.symm⟩ <;> rfl
+          · split at he
+            · refine ⟨b, _, hb, ?_, ?_, he.symm⟩ <;> rfl
+            · refine ⟨b, _, hb, ?_, ?_, he.symm⟩ <;> rfl
 
 theorem lastDequeue_quiet {s s1 : BState} {c : ConnId} {x : BConn} {S : ClientId → Prop}
     (hc : s.conn? c = some x) (hS : ∀ k, x.sref = .stored k → S k) (h : s1 ∈ lastDequeue s c x) :
